@@ -52,6 +52,14 @@ def lwrLoop (r : Nat → M) : Nat → LWRSt M
 /-- `lwr_recursion(r)` for `r` of shape `(P+1, nc, nc)`: `(a, sigf)` -/
 def lwr (r : Nat → M) (P : Nat) : List M × M := ((lwrLoop r P).a, (lwrLoop r P).sigf)
 
+/-- number of lags `MAR_est_LWR(x, order)` requests from `autocov_vector`: today's code passes
+`nlags=order` (`intended = false`); the documented order-`P` model needs `order + 1` -/
+def marLags (intended : Bool) (order : Nat) : Nat := if intended then order + 1 else order
+
+/-- `MAR_est_LWR(x, order)` given the lagged covariances `R` of `x` -/
+def marEstLWR (intended : Bool) (R : Nat → M) (order : Nat) : List M × M :=
+  lwr R (marLags intended order - 1)
+
 end lwr
 
 /-! ### covariance helper -/
@@ -114,11 +122,13 @@ def lwrCF (n : Nat) (rs : List Mat) : List Mat × Mat :=
   lwr (M := SqMat n) (fun k => rs.getD k (Mat.zeros n)) (rs.length - 1)
 
 /-- channel-major data `nc × N` -/
-def chanOf (nc N : Nat) (zs : List CF) : Nat → Nat → CF := fun i t => if i < nc ∧ t < N then zs.getD (i * N + t) ⟨0.0, 0.0⟩ else ⟨0.0, 0.0⟩
+def chanOf (nc N : Nat) (a : Array CF) : Nat → Nat → CF :=
+  fun i t => if i < nc ∧ t < N then a.getD (i * N + t) ⟨0.0, 0.0⟩ else ⟨0.0, 0.0⟩
 
 /-- `autocov_vector(x, nlags)` as the list of lag matrices `R(0..nlags-1)` -/
 def autocovMats (nc N nlags : Nat) (zs : List CF) : List Mat :=
-  let x := chanOf nc N zs
+  let arr := zs.toArray                   -- O(1) indexing
+  let x := chanOf nc N arr
   (List.range nlags).map fun k => Mat.ofFn nc nc fun i j => crosscovEntry x x N i j k
 
 /-- determinant by elimination (for the information criteria) -/
@@ -165,9 +175,11 @@ def handle (args : List String) : String :=
   | ["mar", variant, nc, order, xs] => match nc.toNat?, order.toNat?, parseCList? xs with
     | some nc, some order, some zs =>
       if nc = 0 then "bad-op" else
-      let nl := if variant = "intended" then order + 1 else order
+      let intended := variant = "intended"
+      let nl := marLags intended order
       if nl = 0 then "err IndexError" else
-      let r := lwrCF nc (autocovMats nc (zs.length / nc) nl zs)
+      let rs := autocovMats nc (zs.length / nc) nl zs
+      let r := marEstLWR (M := SqMat nc) intended (fun k => rs.getD k (Mat.zeros nc)) order
       "ok " ++ showMats r.1 ++ " " ++ showMats [r.2]
     | _, _, _ => "bad-op"
   | ["fit", crit, order, maxo, xs] => match order.toInt?, maxo.toNat?, parseCList? xs with
